@@ -12,7 +12,7 @@ TECHNIQUE = {}
 NOT_APPLICABLE = {
     "C08": "concurrency: Kani executes one thread and cannot compile tokio's task code to a checkable program; Engine M summarises locks away, which is exactly what this property is about (DESIGN.md §3 C08)",
 }
-for _p in ["C16", "C17"]:
+for _p in []:
     NOT_APPLICABLE.setdefault(_p, "check under construction in this round (see DESIGN.md §3); not claimed until its obligations run green")
 NOTES = ("All checks rebuild from /repo's working tree: Engine K copies it and runs cargo-kani on the copy; Engine M dumps MIR of a copy with the "
          "nightly toolchain. exit 0 = all decided and held; exit 1 + VIOLATION = a solver counterexample; exit 2 = inconclusive (timeout, construct "
